@@ -50,7 +50,14 @@ func run(c *vk.Ctx, can *rig.Canary, sc scen, idx int) {
 			return !bytes.Contains(b, []byte("262=refuse-me"))
 		})
 	}
+	var obsIDs [2]int64
 	switch sc.pattern {
+	case "observers-removed-after-logon":
+		// the application registers two observers of its own before the logon and takes them out again afterwards
+		cfg.OnSession = func(h *simplefixgo.DefaultHandler, s *session.Session) {
+			obsIDs[0] = h.HandleOutgoing(simplefixgo.AcceptedMsgTypes, func(simplefixgo.SendingMessage) bool { return true })
+			obsIDs[1] = h.HandleOutgoing(simplefixgo.AllMsgTypes, func(simplefixgo.SendingMessage) bool { return true })
+		}
 	case "refused-sends-filter-registered-before-logon":
 		cfg.OnSession = refuse
 	case "refused-sends-filter-registered-after-logon":
@@ -208,6 +215,14 @@ func run(c *vk.Ctx, can *rig.Canary, sc scen, idx int) {
 			c.Count("refused_send_attempts", 1)
 			time.Sleep(N * 3 / 10)
 		}
+	case "observers-removed-after-logon":
+		time.Sleep(150 * time.Millisecond)
+		_ = l.H.RemoveOutgoingHandler(simplefixgo.AcceptedMsgTypes, obsIDs[0])
+		_ = l.H.RemoveOutgoingHandler(simplefixgo.AllMsgTypes, obsIDs[1])
+		c.Count("handler_removals", 2)
+		for time.Now().Before(end) {
+			sendAt(N * 3 / 10)
+		}
 	case "half-period-sends":
 		for time.Now().Before(end) {
 			sendAt(N / 2)
@@ -331,7 +346,7 @@ func run(c *vk.Ctx, can *rig.Canary, sc scen, idx int) {
 
 func main() {
 	c := vk.Init("C08")
-	c.Rule("full-stack sessions, both roles, negotiated N in {1,2,3} (quick) + {5,20} (thorough); the peer keeps the session alive with a Heartbeat every 0.8 N; application send patterns relative to the previous outbound message: none (idle for many periods), one send N-0.15 s / N / N+0.15 s / N/2 after it, bursts of 20 followed by 2.3 N of idleness, two sends 0.09 N apart followed by 1.6 N of idleness, a retransmission requested by the peer N/2 after it, an application send through the handler (own header) N/2 after it; send attempts every 0.3 N that an application filter refuses (filter registered before logon: judged like any other pattern; registered after logon: a recorded finding with its own key); a peer that sends nothing on its own and answers each of the session's TestRequests only after 3/4 of the probe period (the session's heartbeat falls due while its own TestRequest is pending); plus sessions that log on a second time on the same connection after a Logout exchange (acceptor: first interval 3 then 1, 1 then 2, 2 then 2; initiator: same interval), observed from the second logon with the patterns idle / N+0.15 s / N/2. Oracle on write timestamps at the peer end: every gap between consecutive outbound messages (and up to the end of the observation) <= N + N/10 + slack, slack = 100 ms + 3 x measured scheduler oversleep; every Heartbeat without TestReqID follows the previous outbound message by >= N - 20 ms. distinct = (role, N, pattern); non-trivial = at least one unsolicited Heartbeat observed")
+	c.Rule("full-stack sessions, both roles, negotiated N in {1,2,3} (quick) + {5,20} (thorough); the peer keeps the session alive with a Heartbeat every 0.8 N; application send patterns relative to the previous outbound message: none (idle for many periods), one send N-0.15 s / N / N+0.15 s / N/2 after it, bursts of 20 followed by 2.3 N of idleness, two sends 0.09 N apart followed by 1.6 N of idleness, a retransmission requested by the peer N/2 after it, an application send through the handler (own header) N/2 after it; application sends every 0.3 N after the application has removed two outgoing observers it had registered before the logon (RemoveOutgoingHandler with the identifiers it was given); send attempts every 0.3 N that an application filter refuses (filter registered before logon: judged like any other pattern; registered after logon: a recorded finding with its own key); a peer that sends nothing on its own and answers each of the session's TestRequests only after 3/4 of the probe period (the session's heartbeat falls due while its own TestRequest is pending); plus sessions that log on a second time on the same connection after a Logout exchange (acceptor: first interval 3 then 1, 1 then 2, 2 then 2; initiator: same interval), observed from the second logon with the patterns idle / N+0.15 s / N/2. Oracle on write timestamps at the peer end: every gap between consecutive outbound messages (and up to the end of the observation) <= N + N/10 + slack, slack = 100 ms + 3 x measured scheduler oversleep; every Heartbeat without TestReqID follows the previous outbound message by >= N - 20 ms. distinct = (role, N, pattern); non-trivial = at least one unsolicited Heartbeat observed")
 	c.Assume("a run whose canary measured more than 250 ms oversleep is inconclusive")
 	can := rig.StartCanary()
 	defer can.Stop()
@@ -344,7 +359,7 @@ func main() {
 	var scs []scen
 	for _, role := range []rig.Role{rig.Acceptor, rig.Initiator} {
 		for _, n := range ns {
-			for _, p := range []string{"idle", "send-just-before", "send-at-deadline", "send-just-after", "bursts-then-idle", "half-period-sends", "pair-just-under-a-tenth-apart", "resend-replay-mid-period", "handler-send-mid-period", "peer-answers-testrequests-late", "refused-sends-filter-registered-before-logon", "refused-sends-filter-registered-after-logon"} {
+			for _, p := range []string{"idle", "send-just-before", "send-at-deadline", "send-just-after", "bursts-then-idle", "half-period-sends", "pair-just-under-a-tenth-apart", "resend-replay-mid-period", "handler-send-mid-period", "peer-answers-testrequests-late", "observers-removed-after-logon", "refused-sends-filter-registered-before-logon", "refused-sends-filter-registered-after-logon"} {
 				scs = append(scs, scen{role, n, p, periods[n], 0})
 			}
 		}
